@@ -81,4 +81,23 @@ func dumpLayers(e *engine.EngineFacade, out func(string)) {
 	}
 }
 
+// dumpMemLayers prints the memtable layers only.
+func dumpMemLayers(e *engine.EngineFacade, out func(string)) {
+	for _, l := range e.VerifStorage().VerifLayers() {
+		if l.Kind == "sst" {
+			continue
+		}
+		out(fmt.Sprintf("L %s n=%d", l.Kind, len(l.Entries)))
+		for _, en := range l.Entries {
+			k := "val"
+			v := render(en.Value)
+			if en.Tombstone {
+				k = "del"
+				v = "-"
+			}
+			out(fmt.Sprintf("l %s %s %s %s", render(en.Key), num(en.Seq), k, v))
+		}
+	}
+}
+
 var _ = os.Getenv
